@@ -382,6 +382,49 @@ fn evaluate<M: Matcher>(p: &Prep, m: &M, answers: &[String], ctx: &mut Ctx) {
                     break;
                 }
             };
+            // the Summary printer (count mode, line-oriented search only): refuses at the N-th match
+            if path != "multi" {
+                let reply = ctx.drv.ask(&format!("c16.summaryquit {} {}", nlim, kinds));
+                let (sm, ssp) = reply.split_once('|').unwrap_or(("bad", "bad"));
+                let mut pr = grep_printer::SummaryBuilder::new()
+                    .kind(grep_printer::SummaryKind::Count)
+                    .max_matches(Some(nlim))
+                    .build_no_color(vec![]);
+                let mut tap = TapSink::new(pr.sink(m));
+                let res = ss.plain.search_slice(m, input, &mut tap);
+                let run = format!("{}|{}", tap.rec.events.join(";"), if res.is_ok() { "ok" } else { "err" });
+                let fs = tap.first_stop.map_or("-".to_string(), |k| k.to_string());
+                ctx.rep.eval();
+                ctx.rep.branch(&format!("maxcount:summary:{}", if tap.first_stop.is_some() { "limit-hit" } else { "limit-not-hit" }));
+                if fs != sm || fs != ssp {
+                    ctx.rep.violation(Violation {
+                        kind: if fs != ssp { "impl_vs_spec".into() } else { "impl_vs_model".into() },
+                        class: "".into(),
+                        tie: "summary printer sink with max_matches N: first refused callback = the N-th match".into(),
+                        case: line.to_string(),
+                        detail: format!("{} N={}: impl {} model {} spec {} stream {}", what, nlim, fs, sm, ssp, kinds),
+                    });
+                }
+                let verdict = match tap.first_stop {
+                    Some(k) if k + 1 < n => prefix_rule(e_impl, &run, k, false),
+                    _ => {
+                        if run == *e_impl {
+                            Ok(())
+                        } else {
+                            Err("the limit was not hit but the stream differs from the uninterrupted one".to_string())
+                        }
+                    }
+                };
+                if let Err(why) = verdict {
+                    ctx.rep.violation(Violation {
+                        kind: "impl_vs_spec".into(),
+                        class: "".into(),
+                        tie: "summary printer sink with max_matches: callbacks delivered = prefix + one finish".into(),
+                        case: line.to_string(),
+                        detail: format!("{} N={}: {}; run {} ; uninterrupted {}", what, nlim, why, run, e_impl),
+                    });
+                }
+            }
             for printer in ["standard", "json"] {
                 let (run, first_stop) = if printer == "standard" {
                     let mut pr = grep_printer::StandardBuilder::new().max_matches(Some(nlim)).build_no_color(vec![]);
